@@ -53,6 +53,14 @@ class CallMixin:
             return self.seq(list(e.args) + [k.value for k in e.keywords], st, fr,
                             lambda s, vs: self.invoke(target, selfv, vs[:len(e.args)], dict(zip([k.arg for k in e.keywords], vs[len(e.args):])), s, fr, e))
         is_logger = isinstance(e.func, ast.Attribute) and isinstance(e.func.value, ast.Name) and e.func.value.id == "LOGGER"
+        if is_logger:
+            # logger calls have no effect on verified state; their arguments are still executed for run-time-error freedom
+            # (where an argument is outside the encoded subset it is skipped and noted)
+            try:
+                return self.seq(list(e.args) + [kw.value for kw in e.keywords], st, fr, lambda s, vs: self.val(s, V.NONEV))
+            except OutOfSubset as exc:
+                self.notes.append(f"logger argument skipped at {fr.module.relpath}:{e.lineno}: {exc}")
+                return self.val(st, V.NONEV)
         out = []
         for k, s1, f in self.ev(e.func, st, fr):
             if k == "raise":
@@ -189,6 +197,8 @@ class CallMixin:
 
     # ------------------------------------------------------------------ constructors
     def construct(self, q: str, args: List[Val], kwargs: Dict[str, Val], st: State, fr: Frame, node) -> List:
+        if q == "rp2.rp2_decimal.RP2Decimal":
+            return self.make_decimal(args[0], st, fr, node, rp2=True)
         c = self.tree.cls(q)
         if any(b in c.mro for b in ("Exception", "BaseException")):
             return self.val(st, exc_val(c.name))
@@ -448,7 +458,8 @@ class CallMixin:
             op = name.split(".")[1]
             if lit is not None:
                 return self.val(st, V.strv(getattr(lit, op)()))
-            return self.val(st, Val(STR, self.uf("str_" + op, V.StrS, V.StrS)(recv.t)))
+            V.CASE_USED[0] = True
+            return self.val(st, Val(STR, {"lower": V.STR_LOWER, "upper": V.STR_UPPER, "strip": V.STR_STRIP}[op](recv.t)))
         if name == "str.endswith" or name == "str.startswith":
             return self.val(st, V.boolv(self.uf("str_" + name.split(".")[1], V.StrS, V.StrS, z3.BoolSort())(recv.t, args[0].t)))
         if name == "dec.quantize":
@@ -647,8 +658,15 @@ class CallMixin:
     # ------------------------------------------------------------------ verification of one function against its contract
     def symbolic_params(self, fi: FuncInfo, st: State) -> Dict[str, Val]:
         env: Dict[str, Val] = {}
+        kk = S.CONTRACTS.get(fi.qualname)
+        overrides = getattr(kk, "param_types", {}) if kk is not None else {}
         for i, p in enumerate(fi.params + fi.kwonly):
             ann = fi.annotation(p)
+            if p in overrides:
+                v = V.const(overrides[p], p)
+                self.assume_wf(st, v)
+                env[p] = v
+                continue
             if i == 0 and fi.cls is not None and not fi.is_staticmethod and ann is None:
                 if fi.is_classmethod:
                     env[p] = Val(V.ClassT(fi.cls.qualname))
@@ -752,8 +770,8 @@ class CallMixin:
         for key, h in s.heap.items():
             if key == ("alloc",):
                 continue
-            h0 = old_heap[key]
-            if h.eq(h0):
+            h0 = old_heap.get(key)
+            if h0 is None or h.eq(h0):
                 continue
             if h.sort().domain() != V.Ref:
                 continue
